@@ -60,3 +60,31 @@ def E_U():
     from pyvc.engine import U
 
     return U
+
+
+def task_hash_changes_contract():
+    """Task._hash_changes compares freshly computed hashes with the hashes STORED BEFORE the execution: it must not
+    refresh the stored ones (reading the property Task._hash does: `hsh, self._hashes = self._compute_hashes()`),
+    otherwise a modified input is compared with itself and nothing is reported."""
+
+    def only_computes(E, st, out):
+        # (calls on the freshly computed dict, e.g. .items(), are not calls on the task)
+        calls = [e.name for e in st.trace if e.name.startswith("self.")]
+        return calls == ["self._compute_hashes"]
+
+    def stored_hashes_untouched(E, st, out):
+        self_ = st.env["__entry__"]["self"]
+        return (self_.sexpr(), "_hashes") not in st.fields
+
+    return Contract(
+        file="pydra/compose/base/task.py",
+        qualname="Task._hash_changes",
+        params={"self": "U"},
+        default_effects=True,
+        attrs={"_hashes": {"kind": "U"}, "_hash": {"kind": "U", "effect": True, "may_raise": True}, "_checksum": {"kind": "U", "effect": True, "may_raise": True}},
+        ensures=[
+            ("compares-with-the-hashes-stored-before-the-run:no-call-but-_compute_hashes", "property:C19", only_computes),
+            ("stored-hashes-are-not-written", "property:C19", stored_hashes_untouched),
+        ],
+        min_paths=1,
+    )
